@@ -12,6 +12,7 @@ import (
 	"sort"
 	"strings"
 	"sync"
+	"sync/atomic"
 	"time"
 
 	erpc "github.com/henrylee2cn/erpc/v6"
@@ -54,6 +55,12 @@ func invocations(rid string) int {
 	return inv[rid]
 }
 
+var parkCh atomic.Value // chan struct{}
+
+// smallPool: in the last batch of a run the process-wide goroutine pool is this small (erpc.SetGopool), so that
+// more handlers are in flight than the pool has room for
+const smallPool = 6
+
 type unmarshalable struct {
 	C chan int `json:"c"`
 }
@@ -72,6 +79,11 @@ func behave(mode, rid string) (interface{}, *erpc.Status) {
 		panic(erpc.NewStatus(777, "panic status", rid))
 	case "panic-nil":
 		nilMap["x"] = 1
+	case "park":
+		// held until the script releases its handlers (the handlers of a script are in flight together)
+		if ch, _ := parkCh.Load().(chan struct{}); ch != nil {
+			<-ch
+		}
 	case "slow":
 		time.Sleep(300 * time.Microsecond)
 	case "slow-beyond-age":
@@ -268,6 +280,11 @@ func main() {
 	wire.RegFilters()
 	bed.Init("OFF")
 	erpc.SetReadLimit(readLimit)
+	saturate := *batch == *nbatch-1
+	if saturate {
+		erpc.SetGopool(smallPool, 0)
+		core.Add("batches_with_a_small_goroutine_pool", 1)
+	}
 
 	nScripts := 300
 	protoNames := []string{"raw", "json", "raw", "pb"}
@@ -329,7 +346,19 @@ func main() {
 			sc.Class = "script-context-age"
 			n = []int{1, 3, 8}[r.Intn(3)]
 		}
-		if p.AnyMtype && r.Intn(4) == 0 && !agedScript {
+		parked := false
+		if saturate && sc.Conns > 2 {
+			sc.Conns = 2 // every connection's read loop occupies a goroutine of the small pool
+		}
+		if saturate && !agedScript && si%3 != 0 {
+			// more calls in flight at once than the small pool has goroutines: their handlers park until all frames were consumed
+			sc.Class = "script-pool-saturated"
+			sc.Conns = 1 // (a second connection's read loop would wait for a pool goroutine until the handlers are released)
+			n = []int{8, 12, 20}[r.Intn(3)]
+			parked = true
+			parkCh.Store(make(chan struct{}))
+		}
+		if p.AnyMtype && r.Intn(4) == 0 && !agedScript && !parked {
 			sc.EndType = []int{0, 4, 5, 6, 7, 9, 100, 255}[r.Intn(8)]
 			sc.Class = "script-unsupported-type"
 		}
@@ -358,6 +387,8 @@ func main() {
 				switch x := r.Intn(10); {
 				case agedScript && x < 4:
 					kind = "call-slow-beyond-age"
+				case parked && x < 8:
+					kind = "call-park"
 				case x < 7:
 					kind = callKinds[r.Intn(len(callKinds))]
 				case x < 9:
@@ -444,6 +475,12 @@ func main() {
 		wg.Wait()
 		// barrier: quiescence (all frames consumed, no handler running, no reply being written)
 		q := quiesce.Wait(quiesce.Options{Timeout: 30 * time.Second})
+		if parked && q.Quiescent {
+			// every frame was consumed and the handlers that got a goroutine are parked: release them
+			close(parkCh.Load().(chan struct{}))
+			core.Add("scripts_with_more_handlers_in_flight_than_pool_goroutines", 1)
+			q = quiesce.Wait(quiesce.Options{Timeout: 30 * time.Second})
+		}
 		if !q.Quiescent {
 			core.Result(core.R{ID: id, Verdict: core.Inconclusive, What: "watchdog: process did not become quiescent"})
 			for _, cr := range runs {
